@@ -367,6 +367,9 @@ def eventauth_allowerContext_aliasEventAllowed : List String := [
   "if err := a.create.DomainAllowed(string(sender.Domain())); err != nil {",
   "return err",
   "}",
+  "if event.StateKey() == nil {",
+  "return errorf(\"alias event must be a state event\")",
+  "}",
   "switch event.Version() {",
   "case RoomVersionPseudoIDs:",
   "if !event.StateKeyEquals(string(event.SenderID())) {",
